@@ -32,7 +32,7 @@ var (
 )
 
 func replayCleanup() {
-	if replayTmp != "" {
+	if replayTmp != "" && os.Getenv("BSYM_KEEP") == "" {
 		os.RemoveAll(replayTmp)
 	}
 }
@@ -129,14 +129,40 @@ func replayViolation(e *Engine, j *Job, v *Violation) {
 	}
 	var transcript strings.Builder
 	for r := 0; r < runs && !v.Reproduced; r++ {
-		ctx, cancel := context.WithTimeout(context.Background(), 15*time.Second)
+		limit := 15 * time.Second
+		if strings.Contains(v.ID, "stack-overflow") {
+			limit = 120 * time.Second // the Go runtime aborts only after growing the stack to its 1 GB limit
+		}
+		ctx, cancel := context.WithTimeout(context.Background(), limit)
 		cmd := exec.CommandContext(ctx, b.bin, "-test.run", "^TestVerifReplay$", "-test.timeout", "300s")
 		cmd.Env = append(os.Environ(), "VERIF_VECTOR="+vecPath)
 		if j.Pkg == "main" {
 			cmd.Env = append(cmd.Env, "VERIF_BORNO_BIN="+bornoBinary())
 		}
 		cmd.Dir = dir
-		out, _ := cmd.CombinedOutput()
+		// output goes to a file: a process killed by the Go runtime ("fatal error: stack
+		// overflow") was observed to leave nothing in an os/exec pipe
+		outPath := filepath.Join(dir, fmt.Sprintf("native_run_%d.txt", r))
+		outFile, ferr := os.Create(outPath)
+		if ferr != nil {
+			v.ReplayOut = ferr.Error()
+			cancel()
+			return
+		}
+		cmd.Stdout, cmd.Stderr = outFile, outFile
+		runErr := cmd.Run()
+		outFile.Close()
+		out, _ := os.ReadFile(outPath)
+		if os.Getenv("BSYM_KEEP") != "" {
+			fmt.Fprintf(os.Stderr, "replay run %d: %v, %d bytes, cmd=%v env-extra=%v\n", r, runErr, len(out), cmd.Args, cmd.Env[len(cmd.Env)-2:])
+		}
+		os.Remove(outPath)
+		if len(out) > 200000 {
+			out = out[:200000]
+		}
+		if len(out) == 0 && runErr != nil {
+			out = []byte("(native run produced no output: " + runErr.Error() + ")\n")
+		}
 		timedOut := ctx.Err() == context.DeadlineExceeded
 		cancel()
 		o := string(out)
